@@ -6,7 +6,7 @@ reg("C12",
     case_type="c12_case", verdicts="c12_verdicts",
     property_modules=["Properties.C12"],
     theorems=["c12_returns", "c12_file_blocking_points", "c12_no_call_after", "c12_mutex", "c12_fail_stops_all", "c12_restart_point",
-              "c12_eternal_unfixed_refuted", "c12_joining_unfixed_refuted"],
+              "c12_eternal_unfixed_refuted", "c12_joining_unfixed_refuted", "c12_mux_unfixed_refuted"],
     proof_files=["Base/Prelude.v", "Model/Lifecycle.v", "Spec/C12_Spec.v",
                  "Proofs/C12_Sched.v", "Proofs/C12_Eternal.v", "Proofs/C12_Joining.v", "Proofs/C12_JoiningLive.v",
                  "Proofs/C12_Subscription.v", "Proofs/C12_MuxBase.v", "Proofs/C12_MuxMutex.v", "Proofs/C12_MuxShut.v",
@@ -14,12 +14,15 @@ reg("C12",
                  "Properties/C12.v", "Check/C12_Check.v"],
     rule="corpus (always): a complete Shutdown injected at every verif schedule point of EternalSource (5 points x 1st/2nd "
          "passage x 3 inner-source scripts), JoiningSource (7 points x 7 configurations), MultiplexedSource (8 points incl. "
-         "inside the handler, scripted scenarios with reconnects), inside every handler call, inside the caller-supplied "
+         "inside the handler, scripted scenarios with reconnects; one inner source parked inside the handler while another waits for "
+         "handlerLock, then Shutdown from outside / by the handler failure / from inside the parked call / at the wrapper's schedule "
+         "points, with Run returning before or after the parked call), inside every handler call, inside the caller-supplied "
          "factories, and when idle; hub.Subscription through a real ForkableHub and FileSource over a mock store with Shutdown "
          "inside the n-th handler call / when idle. Generated: random inner-source scripts (blocks, handler errors, failures of "
          "their own), random injection instants of the same kinds, random multiplexed command sequences (round / deliver / arm / "
-         "shutdown), uncontrolled random-delay Shutdowns, free-running multiplexed stress (1-4 slots, reconnecting sources, handler "
-         "failure or external Shutdown, overlap detector). non-trivial = every case (each runs a real source to completion); "
+         "shutdown / hold / release), uncontrolled random-delay Shutdowns, free-running multiplexed stress (1-4 slots, reconnecting sources, "
+         "handler failure, external Shutdown, or Shutdown during a 2 ms handler call on which the other sources queue up; overlap "
+         "detector, no handler call after Run returned and Terminated). non-trivial = every case (each runs a real source to completion); "
          "distinct by input",
     n_quick=1500, n_thorough=20000, n_escalate=6000,
     codes={1: "model-log-differs", 2: "property-rejects-observation", 3: "mismatch+property", 4: "hang-or-panic"},
@@ -34,15 +37,22 @@ reg("C12",
         "complete Shutdown on the paused goroutine, or, under sourcesLock, until the terminating channel is closed",
     ],
     assumptions=["model follows the code WITH repo_patches/C12_fix_*.diff applied; the unfixed variants are kept in the model "
-                 "(step false / cfg fixed:=false) and refuted by c12_eternal_unfixed_refuted / c12_joining_unfixed_refuted",
+                 "(Et.step false / Jn cfg fixed:=false / Mx.step false) and refuted by c12_eternal_unfixed_refuted / "
+                 "c12_joining_unfixed_refuted / c12_mux_unfixed_refuted",
+                 "a handler call begins at the last synchronisation operation before it: the wrapper of the multiplexed source tests "
+                 "the terminating channel and calls the handler under handlerLock with no lock/channel operation and no schedule point "
+                 "in between, which is ONE atomic step of the model (as for hub.Subscription and FileSource); in real time another "
+                 "goroutine's Shutdown can complete between the test and the first instruction of the handler",
                  "blockstream.Source (gRPC) is not modelled; EternalSource is modelled without startBackAt (delegating variant)"],
     level_text="Unbounded theorems over ALL schedules (lists of thread ids; blocked threads stutter) about hand-written Gallina "
                "models of the shutter protocol and of EternalSource, JoiningSource, MultiplexedSource, hub.Subscription and FileSource: "
                "c12_returns (closing + deadlock freedom + termination under weak fairness from a ranking function, for all five "
-               "source types), c12_no_call_after, c12_mutex, c12_fail_stops_all, "
-               "c12_restart_point, all closed under the global context; plus machine-checked witnesses that the code before the two "
-               "fix: patches hangs. The models are tied to the real code on every run: the event log (schedule points passed, factory "
+               "source types), c12_no_call_after (for the multiplexed source without any hypothesis on its inner sources: no call begins "
+               "once the terminating channel is closed, in every state), c12_mutex, c12_fail_stops_all, "
+               "c12_restart_point, all closed under the global context; plus machine-checked witnesses that the code before the "
+               "fix: patches hangs (eternal, joining) or calls the handler after Run returned and Terminated (multiplexed). The models are tied to the real code on every run: the event log (schedule points passed, factory "
                "calls, handler begin/end, inner-source shutdowns, return of Run) of the model run on the schedule a directed injection "
                "denotes must equal the log observed on the real source, and the boolean form of the property is evaluated on the "
-               "observation alone (hang within a 2 s watchdog / panic = violation).",
+               "observation alone (hang within a 2 s watchdog / panic = violation; no handler call begins after Run returned [ERet in the log] "
+               "for all five kinds, and in multiplexed scenarios none begins while IsTerminating()).",
     )
